@@ -76,7 +76,7 @@ def _stable_atoms(e):
             out.add(a)
             continue
         # field paths
-        m = re.search(r"\.([a-z_][a-z0-9_]*)$", a)
+        m = re.search(r"\.([a-z_][a-z0-9_]*|\d)$", a)
         if m:
             out.add("field:" + m.group(1))
         if re.match(r"^arg\d+(\.[a-z_][a-z0-9_]*)*$", a) and len(a) <= 70:
@@ -141,7 +141,7 @@ def summarize(F, key):
             continue
         alts = []
         for c in blst:
-            alts.append([_stable_atoms(ex.operand(a)) for a in c["t"]["args"][:6]])
+            alts.append([_sig_atoms(ex.operand(a)) for a in c["t"]["args"][:6]])
         args[bk] = alts
     # guards: every real branch condition (comparisons with operand origins, boolean calls) - `?`, log-level tests and loop headers excluded
     conds = {}
@@ -175,7 +175,52 @@ def summarize(F, key):
                         found.append([sig, v])
         if found:
             silent[bk] = sorted(found, key=lambda g: json.dumps(g))
-    return {"must": must, "order": order, "args": args, "guards": guards, "silent": silent}
+    # assigns: origins of every value stored into a field of a parameter (`self.size = ..`, `trees.bitmap_accumulator = ..`)
+    assigns = {}
+    for bi, b in enumerate(fn["blocks"]):
+        if b["cleanup"] or bi not in live:
+            continue
+        for st in b["st"]:
+            if st["k"] != "assign" or not st["dst"]["p"] or not (1 <= st["dst"]["l"] <= fn["argc"] or _derives_from_param(fn, st["dst"]["l"])):
+                continue
+            fields = [p["f"] for p in st["dst"]["p"] if isinstance(p, dict) and "f" in p]
+            if not fields or not re.match(r"^[a-z_]", fields[-1]):
+                continue
+            a = _sig_atoms(ex.rvalue(st["rv"], 0, ()))
+            assigns.setdefault(".".join(fields), []).append(a)
+        t = b["term"]
+        if t["k"] == "call" and t["dst"]["p"] and (1 <= t["dst"]["l"] <= fn["argc"] or _derives_from_param(fn, t["dst"]["l"])):
+            fields = [p["f"] for p in t["dst"]["p"] if isinstance(p, dict) and "f" in p]
+            if fields and re.match(r"^[a-z_]", fields[-1]):
+                assigns.setdefault(".".join(fields), []).append(_sig_atoms(ex.call(t, 0, ())))
+    # ret: origins of the value a pure (non-Result) function returns
+    ret = None
+    rty = fn["locals"][0]["s"]
+    if not is_res and rty not in ("()", "!") and not rty.startswith("core::option::Option<alloc::boxed") and fn["kind"] != "Closure":
+        a = _sig_atoms(ex.local(0, 0, ()))
+        if 0 < len(a) <= 24:
+            ret = a
+    return {"must": must, "order": order, "args": args, "guards": guards, "silent": silent, "assigns": assigns, "ret": ret}
+
+
+def _derives_from_param(fn, l):
+    """The local is a (re)borrow of a parameter (`let extension = &mut ext.extension`)."""
+    seen = 0
+    while seen < 6:
+        seen += 1
+        if 1 <= l <= fn["argc"]:
+            return True
+        ds = defs_of(fn).get(l, [])
+        if len(ds) != 1 or ds[0][0] != "st":
+            return False
+        rv = ds[0][2]
+        if rv["r"] == "ref":
+            l = rv["pl"]["l"]
+        elif rv["r"] == "use" and rv["a"].get("k") in ("copy", "move"):
+            l = rv["a"]["pl"]["l"]
+        else:
+            return False
+    return False
 
 
 def _is_try_switch(fn, bi):
@@ -294,7 +339,7 @@ def generate(F, prop_record):
     out = {}
     for k in scope(F, prop_record):
         s = summarize(F, k)
-        if s["must"] or s["order"] or s["args"] or s["guards"]:
+        if s["must"] or s["order"] or s["args"] or s["guards"] or s["assigns"] or s["ret"]:
             out[_closure_role(F, k)] = s
     return out
 
@@ -312,6 +357,7 @@ def check(ctx, prop):
     n_must = n_order = n_args = 0
     n_guards = [0]
     n_silent = [0]
+    n_assign = [0]
     bad = 0
     for role, b in sorted(base.items()):
         k = roles.get(role)
@@ -416,7 +462,26 @@ def check(ctx, prop):
                 ctx.record("baseline-silent", "R9", k, "%s: %s is not skipped under a new condition" % (short(k, 2), bk), "violation", [where],
                            ["%s is now reached only when %s(%s ; %s) takes arm %s, and the other outcome carries on without it (on the confirmed tree it was not conditional on this)"
                             % (bk, sig[0], sig[1], sig[2], arm)], key_detail="silent:%s:%s" % (bk, sig[0]))
+        for field, alts in b.get("assigns", {}).items():
+            cur_alts = cur.get("assigns", {}).get(field)
+            if not cur_alts:
+                continue  # the field is no longer written here (vacuous; a dropped write shows up in the hand tables / must set)
+            for ca in cur_alts:
+                n_assign[0] += 1
+                if any(set(ba) <= set(ca) for ba in alts):
+                    continue
+                bad += 1
+                ctx.record("baseline-assign", "R9", k, "%s: the value stored into .%s keeps its origins" % (short(k, 2), field), "violation", [where],
+                           ["on the confirmed tree .%s was assigned from %s; now from %s" % (field, alts[:2], ca)], key_detail="assign:" + field)
+        if b.get("ret") and cur.get("ret") is not None:
+            n_assign[0] += 1
+            if not set(b["ret"]) <= set(cur["ret"]):
+                bad += 1
+                ctx.record("baseline-ret", "R9", k, "%s: the returned value keeps its origins and operators" % short(k, 2), "violation", [where],
+                           ["on the confirmed tree the result derived from %s; now from %s (missing %s)" % (b["ret"], cur["ret"], sorted(set(b["ret"]) - set(cur["ret"])))],
+                           key_detail="ret")
     ctx.stats["baseline_functions"] = len(base)
+    ctx.stats["baseline_assign_ret"] = n_assign[0]
     ctx.stats["baseline_guards"] = n_guards[0]
     ctx.stats["baseline_silent"] = n_silent[0]
     ctx.stats["baseline_must"] = n_must
